@@ -224,4 +224,32 @@ example : UnOp.eval .neg (.int (-2147483648)) = .int (-2147483648) := by decide
 example : BinOp.eval .mul (.int 2147483647) (.int 2) = .int (-2) := by decide
 example : (build (.bin .add (.lit (.int 2147483647)) (.lit (.int 1)))) = .lit (.int (-2147483648)) := by decide
 
+/-! ### truth values used as values: what a builder may not "simplify" (seeded changes of rounds 9, 10) -/
+
+theorem fromBool_toBool (b : Bool) : (Value.fromBool b).toBool = b := by
+  cases b <;> rfl
+
+/-- double negation is the coercion to 0 / 1, not the identity -/
+theorem not_not_coerces (a : Ast) (r : Row) (x : Value) (hx : a.eval r = .ok x) :
+    (Ast.un .boolNot (Ast.un .boolNot a)).eval r = .ok (Value.fromBool x.toBool) := by
+  simp [Ast.eval, hx, UnOp.eval, fromBool_toBool]
+
+/-- a true constant on the left does not make AND transparent, nor a false one OR: the result is the
+TRUTH VALUE of the other operand -/
+theorem const_left_coerces (a : Ast) (r : Row) (x : Value) (hx : a.eval r = .ok x) :
+    (Ast.and (.lit (.int 1)) a).eval r = .ok (Value.fromBool x.toBool) ∧
+    (Ast.or (.lit (.int 0)) a).eval r = .ok (Value.fromBool x.toBool) := by
+  constructor <;> simp [Ast.eval, hx, Value.toBool]
+
+/-- and the API's constructors keep these shapes over a column (they fold literals only) -/
+theorem build_keeps_coercions (n : List Char) :
+    build (.un .boolNot (.un .boolNot (.col n))) = .un .boolNot (.un .boolNot (.col n)) ∧
+    build (.and (.lit (.int 1)) (.col n)) = .and (.lit (.int 1)) (.col n) ∧
+    build (.or (.lit (.int 0)) (.col n)) = .or (.lit (.int 0)) (.col n) := ⟨rfl, rfl, rfl⟩
+
+/-- the coercion matters: on the value 4 the three differ from the operand itself -/
+example : (Ast.un .boolNot (Ast.un .boolNot (.lit (.int 4)))).eval ⟨[], []⟩ = .ok (.int 1) := by decide
+example : (Ast.and (.lit (.int 1)) (.lit (.int 4))).eval ⟨[], []⟩ = .ok (.int 1) := by decide
+example : (Ast.or (.lit (.int 0)) (.lit (.str ['x']))).eval ⟨[], []⟩ = .ok (.int 1) := by decide
+
 end MsiProofs.C13
